@@ -145,7 +145,7 @@ func runC29Rec(outer *testing.T) func(rapid.TB, c29RecCase, *vx.Case) {
 				bad = &finding{sig, fmt.Sprintf(format, args...)}
 			}
 		}
-		var foreignWrites, mixedRanges, okRanges, excluded, panics int64
+		var foreignWrites, mixedRanges, okRanges, panics int64
 		called := false
 
 		mockVM.RegisterSudoCallback(types.MigrateClientStoreMsg{}, func(_ wasmvm.Checksum, _ wasmvmtypes.Env, _ []byte, store wasmvm.KVStore, _ wasmvm.GoAPI, _ wasmvm.Querier, _ wasmvm.GasMeter, _ uint64, _ wasmvmtypes.UFraction) (*wasmvmtypes.ContractResult, uint64, error) {
@@ -225,12 +225,6 @@ func runC29Rec(outer *testing.T) func(rapid.TB, c29RecCase, *vx.Case) {
 						mixedRanges++
 					}
 					same := c29PairsEq(got, want)
-					if !same && !consistent {
-						if leak := c29Range(model[0], []byte{0}, []byte{1}, false); c29IsLeak(got, leak) {
-							excluded++ // the known closed-iterator leak (see c29KnownSig)
-							same = true
-						}
-					}
 					if !same {
 						sig := "iterator-routing"
 						if !consistent {
@@ -276,16 +270,12 @@ func runC29Rec(outer *testing.T) func(rapid.TB, c29RecCase, *vx.Case) {
 		} else {
 			rec.Class("recover-error-after-script")
 		}
-		if excluded > 0 {
-			rec.Class("known-closed-iterator-leak-observed")
-		}
 		if mixedRanges > 0 {
 			rec.Class("range-mixed-or-unprefixed")
 		}
 		if okRanges > 0 {
 			rec.Class("range-consistent-prefix")
 		}
-		rec.Add("excluded_known", excluded)
 		rec.Add("foreign_writes", foreignWrites)
 		rec.Add("store_panics", panics)
 		rec.Add("ops", int64(len(c.Ops)))
